@@ -18,4 +18,11 @@ D_Script == [p \in D_Callers |-> CASE p = "a" -> <<"start", "stop">> [] p = "b" 
 E_Callers == {"a", "b"}
 E_Script == [p \in E_Callers |-> IF p = "a" THEN <<"start", "cancel", "stop", "start">> ELSE <<"start", "stop">>]
 
+\* a Stop that comes too early (rejected: not started) must leave the system fully usable: F ends stopped, G ends running
+F_Callers == {"a"}
+F_Script == [p \in F_Callers |-> <<"stop", "start", "stop">>]
+
+G_Callers == {"a", "b"}
+G_Script == [p \in G_Callers |-> IF p = "a" THEN <<"stop", "start">> ELSE <<"stop">>]
+
 =============================================================================
